@@ -44,12 +44,12 @@ def eq_consts(t, subject_pred):
     return out
 
 
-def _rechecks_entry(tree, nm):
+def _rechecks_entry(tree, nm, any_name=False):
     """a test of one scalar entry nm[a, b] against something other than the literal 0 (the "is it still unknown" test)"""
     for n in ast.walk(tree):
         if isinstance(n, ast.Compare) and len(n.comparators) == 1:
             for a, b in ((n.left, n.comparators[0]), (n.comparators[0], n.left)):
-                if isinstance(a, ast.Subscript) and isinstance(a.value, ast.Name) and a.value.id == nm and isinstance(a.slice, ast.Tuple) and len(a.slice.elts) == 2 \
+                if isinstance(a, ast.Subscript) and isinstance(a.value, ast.Name) and (any_name or a.value.id == nm) and isinstance(a.slice, ast.Tuple) and len(a.slice.elts) == 2 \
                         and not any(isinstance(e, ast.Slice) for e in a.slice.elts) and not (isinstance(b, ast.Constant) and b.value == 0):
                     return True
     return False
@@ -64,7 +64,7 @@ def stale_work_list(rep, f, loops):
         for nm_, initv in li_x["init"].items():
             if isinstance(initv, tuple) and initv and initv[0] == "binop" and any(
                     isinstance(x, tuple) and len(x) == 4 and x[0] == "cmp" and x[1] == "==" and x[2] == initv and is_const(x[3]) for x in walk(li_x["iter"])):
-                if _rechecks_entry(f.node, nm_) or _rechecks_entry(li_x["node"], nm_):
+                if _rechecks_entry(f.node, nm_) or _rechecks_entry(li_x["node"], nm_, any_name=True):        # (inside a fused generator the matrix goes by the generator's own parameter name)
                     # `if labelled[x, y] != UNK: continue` inside the loop is Chickering's own formulation (all edges in order, skip the labelled ones)
                     rep.unk("STEP.shape", fwhere(f, li_x["node"]), "the unknown edges are listed once and each is tested again inside the loop; this formulation of the labelling loop is not read")
                     return True
@@ -354,7 +354,15 @@ def assemble_rules(rep, prog, marker, written, flabel):
                  npred(("cmp", "==", ("ext", "numpy.count_nonzero", (lab,), ()), ("const", 0)), True)]
     main_rets = [r_ for r_ in rets if not (r_.value == zl_ and r_.path and npred(r_.path[-1][0], r_.path[-1][1]) in no_labels)]      # `if not labelled.any(): return zeros`: the empty graph
     if len(main_rets) == 1 and len(rets) - len(main_rets) <= 1:
-        rep.check("LABELS.result", main_rets[0].value[0] == "after" or (ok and main_rets[0].value[0] in ("store", "phi")), fwhere(f), "returns the assembled matrix", "result is not the assembled matrix")
+        rv_ = main_rets[0].value
+        while (rv_[0] == "method" and rv_[2] == "copy" and not rv_[3]) or (rv_[0] == "ext" and rv_[1] in ("numpy.array", "numpy.copy") and len(rv_[2]) == 1 and not rv_[3]):
+            rv_ = rv_[1] if rv_[0] == "method" else rv_[2][0]
+        if rv_[0] == "after" or (ok and rv_[0] in ("store", "phi")):
+            rep.ok("LABELS.result", fwhere(f), "returns the assembled matrix")
+        elif rv_ in (lab, zl_, ("param", "G")) or (rv_[0] == "call" and rv_[1] in (U + "order_edges", U + "label_edges")) or is_const(rv_):
+            rep.bad("LABELS.result", fwhere(f), "result is not the assembled matrix: %s" % fmt(rv_)[:80])
+        else:
+            rep.unk("LABELS.result", fwhere(f), "what dag_to_cpdag returns (%s) is not the local matrix the assembly fills: not read" % fmt(rv_)[:80])
     else:
         rep.unk("LABELS.result", fwhere(f), "dag_to_cpdag has %d return statements; which of them hand out the assembled matrix is not read" % len(rets))
     return (com, rev) if ok else (None, None)
@@ -581,6 +589,10 @@ def extension_rules(rep, prog):
     init_ok = len(nG) == 1 and len(nI) == 1 and len(nP) == 1
     if len(nG) == 1 and len(nP) == 1 and not nI:
         rep.bad("INDEX.pairing", fwhere(f2, outer["node"]), "the list of real node names is never updated while the local matrix shrinks: local indices drift away from node names")
+        return
+    if not init_ok and not (nG or nI or nP):
+        # neither the result, the name list nor the shrinking matrix is a local variable carried by the loop (an object keeps the state): not read
+        rep.unk("INDEX.init", fwhere(f2), "the state of the extension search (result, real names, remaining matrix) is not kept in local variables of pdag_to_dag: not read")
         return
     rep.check("INDEX.init", init_ok, fwhere(f2), "result starts as only_directed(P); real names = list(range(len(P)))", "initial state of the extension search changed")
     if not init_ok:
